@@ -297,6 +297,7 @@ class Parser:
             self.eat()
             if self.peek() == "mut":
                 self.eat()
+                return ("un", "&mut", self.unary(ns))
             return ("un", "&", self.unary(ns))
         return self.postfix(ns)
 
